@@ -112,6 +112,21 @@ Theorem C14_no_lost_update : forall sg r0 st0 tr s,
 Proof. exact no_lost_update. Qed.
 Print Assumptions C14_no_lost_update.
 
+(* what Referrers() / Predecessors() return through the tag schema (referrersByTagSchema =
+   clean the fetched index with applyReferrerChanges(_, nil), then filter), in every
+   reachable state: every key once, no empty descriptor, as a set the fold of the changes of
+   the calls that took effect (C14_no_lost_update says which ones those are at quiescence);
+   a filtered listing only has entries of the requested artifact type *)
+Theorem C14_listing : forall sg r0 st0 tr s,
+  run sg (init r0 st0) tr = Some s ->
+  NoDup (keys (list_referrers (reg s) 0)) /\
+  Forall (fun d => nonempty d = true) (list_referrers (reg s) 0) /\
+  (forall k, In k (keys (list_referrers (reg s) 0)) <->
+             member_after k (memb r0 k) (map (arg s) (lin s)) = true) /\
+  (forall art d, In d (list_referrers (reg s) art) -> art = 0 \/ dart d = art).
+Proof. exact listing_is_fold. Qed.
+Print Assumptions C14_listing.
+
 (* at every instant, for a caller that has returned: its change is part of the
    index iff it did not get a plain error; in particular a failed deletion of the
    superseded index (RIdxDel) is reported after the update took effect *)
